@@ -57,7 +57,8 @@ let run (toks : string list) : string =
     let paired name = L.mem name (controllers ()) in
     L.iter (fun op ->
         let p = split_on ':' op in
-        if String.length op > 4 && String.sub op 0 4 = "pin=" then pin := String.sub op 4 (String.length op - 4)
+        if String.length op > 8 && String.sub op 0 8 = "dirname=" then ()      (* where the storage lives does not matter *)
+        else if String.length op > 4 && String.sub op 0 4 = "pin=" then pin := String.sub op 4 (String.length op - 4)
         else if String.length op > 4 && String.sub op 0 4 = "sid=" then sid := str (unhex (String.sub op 4 (String.length op - 4)))
         else match p with
           | ["S"; st; _vals; cat] ->
